@@ -4,7 +4,9 @@ dkg.Run with aggLockHashSig / aggDepositData).
 
 specs/Frost/Frost.tla transcribes the two FROST rounds and the transport contract over GF(p) (everything in the
 exponent).  TLC (a) checks the property on the spec for every polynomial of a small field / every delivery order and
-refutes it for five control variants, (b) generates ceremony schedules; the executor runs every schedule on n goroutines
+refutes it for the control variants listed in CONTROLS -- among them 'a node whose send failed runs its round-1 send step again and
+proceeds with a participant's cast missing' --, and checks it with FAILING SENDS in the environment (Fault: the node gives up or
+carries on; the nodes that finish agree and nobody enters round 2 without every participant's cast), (b) generates ceremony schedules; the executor runs every schedule on n goroutines
 executing the real runFrostParallel and logs relations computed with real kryptology / tbls calls; TLC validates every
 trace against the spec (the spec demands the model's value of each relation)."""
 import json, os
@@ -23,7 +25,12 @@ RULE = ("schedules = one ceremony each: (n in 3..8, t in 2..n, V in 1..4) + the 
         "frostP2P + real bcast component on every node over a scheduled wire: every cast handed to the real bcast server handler "
         "/ every share stream released to the real stream handler when the schedule says, plus RE-deliveries of batches already "
         "received (TLC-generated with up to 4 re-deliveries, seeded, and the scripted shapes 'fast peer's round-2 cast, then its "
-        "round-1 cast again, while a slow peer's cast is outstanding' in both rounds for n=4,t=3,V=2); executed on n "
+        "round-1 cast again, while a slow peer's cast is outstanding' in both rounds for n=4,t=3,V=2), (e) mode cb with FAILING SENDS: "
+        "one send of a node's round-1 / round-2 send step (k-th direct share stream: refused at open, or written and then reported "
+        "failed; k-th signature request / k-th cast message of its reliable broadcast) fails once (or twice in a row) with a libp2p "
+        "stream-reset / resource-scope-closed error (the class p2p.IsRelayError accepts) or a plain error, in ceremonies where for "
+        "every node one peer's round-1 cast is held back until all its other round-1 messages were consumed (scripted, seeded, and "
+        "TLC-generated with Fault moves); every cb event is logged with the stimulated node quiescent; executed on n "
         "goroutines running the unmodified runFrostParallel; every ceremony ends with relations over all t-subsets (n<=6) or "
         "a seeded sample (n>6) and some (t-1)-subsets, computed with real tbls calls; distinct = distinct recorded traces")
 ASSUMPTIONS = [
@@ -41,7 +48,14 @@ ASSUMPTIONS = [
     "spec's Redeliver changes nothing, i.e. a re-delivered message must never change what a node leaves a round with",
     "a 'fewer than t shares do not sign' relation is only demanded when the witness's joint polynomial has degree exactly t-1; "
     "which node's view a subset is evaluated in is the first listed member's",
-    "all nodes are honest and the transport is reliable (C13 covers the broadcast layer against faulty members); design check "
+    "failing sends (mode cb): the injected error is returned by the host's NewStream / the stream's Write (direct share sends of the "
+    "real frostP2P.Round1 through p2p.Send) or by the in-memory transport functions of the real bcast client; one fault per node and "
+    "round; a node whose send failed may give up (the trace then ends: 'the ceremony aborts') or carry on -- the spec allows both and "
+    "demands in either case that a node enters round 2 only with the round-1 cast of every participant (observed: the keys of the maps "
+    "the real transport Round1 returned) and that the finished nodes hold one consistent key; nodes that finish AFTER another node "
+    "gave up are covered by the design check only (FinAgreement / FinShareMatches / FinReconstructs over every subset of finished "
+    "nodes), not executed; quiescence of a node is read off the Go runtime's goroutine dump (parked in the select of its transport call)",
+    "all nodes are honest and apart from the injected failing sends the transport is reliable (C13 covers the broadcast layer against faulty members); design check "
     "exhaustive (thorough tier) over all polynomials for p=7,n=3,t=2,V=1 and over all polynomials of two nodes (two of the third) for "
     "p=5,n=3,t=3,V=1 in one canonical delivery order, and over ALL delivery orders for n=3, t in {2,3}, V in {1,2} with two polynomials "
     "per node; n=4,5 with two polynomials per node in two canonical orders; quick tier: p=5,n=3,t=2 (two nodes all polynomials) and all "
@@ -56,7 +70,12 @@ CONTROLS = [("FrostMC_ctl_pskey0.cfg", "KeyedByShareIdx", "public shares keyed b
             ("FrostMC_ctl_lastid.cfg", "CountsDistinct", "cast de-duplication by 'last accepted id per peer': a re-delivered cast is counted again"),
             ("FrostMC_ctl_lastid_barrier.cfg", "RedeliveryNoEffect", "the same: a re-delivery changes a node's state"),
             ("FrostMC_ctl_lastid_agree.cfg", "Agreement", "the same, end to end: a node leaves round 1 without a peer's cast and derives another group key"),
-            ("FrostMC_ctl_mixvals.cfg", "GroupKeyIsSum", "getRound2Inputs ignores ValIdx (msgKey collision)")]
+            ("FrostMC_ctl_mixvals.cfg", "GroupKeyIsSum", "getRound2Inputs ignores ValIdx (msgKey collision)"),
+            ("FrostMC_ctl_retrydup.cfg", "UsedAllCasts", "round-1 send step run again after a failed send, own cast self-delivered twice: "
+             "the node proceeds with a participant's cast missing"),
+            ("FrostMC_ctl_retrydup_barrier.cfg", "BarrierComplete", "the same: the node leaves round 1 without a peer's cast"),
+            ("FrostMC_ctl_retrydup_agree.cfg", "FinAgreement", "the same, end to end: the finished nodes hold different group keys")]
+THOROUGH_ONLY_CONTROLS = ("FrostMC_ctl_lastid_agree.cfg", "FrostMC_ctl_retrydup_barrier.cfg", "FrostMC_ctl_retrydup_agree.cfg")
 PRIMES = [11, 13, 17, 31]
 
 
@@ -115,13 +134,15 @@ class Sim:
 STAGE = {"Start": 0, "D1C": 1, "D1P": 1, "Ret1": 2, "D2": 3, "Ret2": 4}
 
 
-def ceremony(r, n, t, nv, kind, seed, mode="mem", rd=0.0):
-    """one ceremony; rd = probability of a re-delivery (of a batch already delivered) after each move"""
+def ceremony(r, n, t, nv, kind, seed, mode="mem", rd=0.0, faults=()):
+    """one ceremony; rd = probability of a re-delivery (of a batch already delivered) after each move; faults = failing
+    sends (mode cb), each armed right before the step that runs the send step it hits"""
     p = r.choice([q for q in PRIMES if q > n])
     sim = Sim(n)
     steps = [{"ev": "Cfg", "n": n, "t": t, "V": nv, "p": p, "mode": mode, "seed": seed, "kind": kind}]
     delivered = []
     special = r.randint(1, n)
+    late = {x: r.choice([y for y in range(1, n + 1) if y != x]) for x in range(1, n + 1)} if kind == "heldback" else {}
     perm = list(range(1, n + 1))
     r.shuffle(perm)
     rank = {x: k for k, x in enumerate(perm)}
@@ -148,10 +169,17 @@ def ceremony(r, n, t, nv, kind, seed, mode="mem", rd=0.0):
             mine = [x for x in en if tgt(x) == special or x[0] in ("Start", "Ret1")]
             mine_first = [x for x in mine if tgt(x) == special]
             m = r.choice(mine_first) if mine_first else (r.choice(mine) if mine else r.choice(en))
+        elif kind == "heldback":      # every node consumes all its other round-1 messages before ONE peer's cast reaches it
+            held = [x for x in en if x[0] == "D1C" and late[x[2]] == x[1]]
+            r1 = [x for x in en if STAGE[x[0]] <= 1 and x not in held]
+            m = r.choice(r1) if r1 else (r.choice(held) if held else r.choice(en))
         else:
             raise ValueError(kind)
         sim.apply(m)
         k, i, j = m
+        for f in faults:
+            if (k == "Start" and f["r"] == 1 and f["i"] == i) or (k == "Ret1" and f["r"] == 2 and f["i"] == j):
+                steps.append(dict(f, ev="Fault"))
         if k == "Start":
             steps.append({"ev": "Start", "i": i, "c": [[r.randrange(p) for _ in range(t)] for _ in range(nv)]})
         elif k in ("Ret1", "Ret2"):
@@ -173,6 +201,9 @@ def scripted(n, t, nv, seed, p, moves, tag):
     for m in moves:
         if m[0] == "RD":
             steps.append({"ev": "RD", "i": m[1], "j": m[2], "k": m[3]})
+            continue
+        if m[0] == "Fault":
+            steps.append(dict(m[1], ev="Fault"))
             continue
         if m not in sim.enabled():
             raise vlib.Infra("scripted schedule %s: move %s is not enabled" % (tag, m))
@@ -214,6 +245,58 @@ def shape_round2(n, t, nv, seed, X, P, Q):
     mv += [("RD", P, X, "c1"), ("RD", P, X, "c2"), ("D2", Q, X)]
     mv += [("Ret2", 0, j) for j in N]
     return scripted(n, t, nv, seed, 11, mv, "shape2_%d%d%d" % (X, P, Q))
+
+
+def draw_fault(r, n, i=None, rnd=None, what=None, err=None):
+    """one failing send: node, round, which send (what, k-th), where, the error, how often in a row"""
+    what = what or r.choice(["p2p", "p2p", "sig", "msg"])
+    rnd = 1 if what == "p2p" else (rnd or r.choice([1, 2]))
+    return {"i": i or r.randint(1, n), "r": rnd, "what": what, "k": r.randint(1, n - 1),
+            "where": r.choice(["open", "write"]) if what == "p2p" else "open",
+            "err": err or r.choice(["reset", "reset", "scope", "plain"]), "times": 1}
+
+
+def shape_fault(n, t, nv, seed, X, L, f):
+    """a send of X's round-1 send step fails; X then consumes every round-1 message but the cast of L, which arrives last"""
+    N = list(range(1, n + 1))
+    mv = [("Start", i, 0) for i in N if i != X] + [("Fault", dict(f, i=X, r=1)), ("Start", X, 0)]
+    mv += [("D1C", i, j) for i in N for j in N if i != j and (i, j) != (L, X)]
+    mv += [("D1P", i, j) for i in N for j in N if i != j]
+    mv += [("D1C", L, X)] + [("Ret1", 0, j) for j in N]
+    mv += [("D2", i, j) for i in N for j in N if i != j] + [("Ret2", 0, j) for j in N]
+    return scripted(n, t, nv, seed, 11, mv, "fault_%d%d_%s_%s" % (X, L, f["what"], f["err"]))
+
+
+def fault_schedules(seed, thorough, gen):
+    """mode cb with failing sends: aimed at 'the node whose send failed tries again and loses track of what it holds'"""
+    r = vlib.rng(seed, "c11fault")
+    X = r.randint(1, 4)
+    out = [shape_fault(3, 2, 1, seed, 1, 3, draw_fault(r, 3, what="p2p", err="reset")),
+           shape_fault(4, 3, 2, seed, X, r.choice([y for y in range(1, 5) if y != X]),
+                       draw_fault(r, 4, what="p2p", err=r.choice(["reset", "scope"])))]
+    plan = [("p2p", 1, "scope"), ("p2p", 1, "plain"), ("sig", 1, "reset"), ("msg", 1, "scope"), ("sig", 2, "reset"),
+            ("msg", 2, "reset"), ("msg", 2, "plain"), ("p2p", 1, "reset")]
+    if thorough:
+        plan = [(w, rd, e) for w in ("p2p", "sig", "msg") for rd in (1, 2) for e in ("reset", "scope", "plain") if (w, rd) != ("p2p", 2)] * 3
+    for k, (what, rnd, err) in enumerate(plan):
+        n = r.randint(3, 6 if thorough else 5)
+        f = draw_fault(r, n, rnd=rnd, what=what, err=err)
+        if k == len(plan) - 1:
+            f["times"] = 2            # the send fails again when it is tried again
+        fs = [f]
+        if thorough and k % 3 == 2:   # a second node is hit too
+            fs.append(draw_fault(r, n, i=r.choice([x for x in range(1, n + 1) if x != f["i"]])))
+        out.append(ceremony(r, n, r.choice([2, n, r.randint(2, n)]), r.choice([1, 2]), "heldback", seed, mode="cb",
+                            rd=r.choice([0.0, 0.1, 0.25]), faults=fs))
+    # a fault that is armed but never strikes (the node opens only n-1 streams): the ceremony completes
+    f = draw_fault(r, 3, what="p2p", err="reset")
+    f["k"] = 3
+    out.append(ceremony(r, 3, 2, 2, "heldback", seed, mode="cb", faults=[f]))
+    for s in from_tlc(gen, seed, mode="cb"):       # TLC chose node and round (Fault moves); the concrete send is drawn here
+        n = s[0]["n"]
+        out.append([s[0]] + [dict(draw_fault(r, n, i=e["i"], rnd=e["r"], what=(None if e["r"] == 1 else r.choice(["sig", "msg"]))), ev="Fault")
+                             if e.get("ev") == "Fault" else e for e in s[1:]])
+    return out
 
 
 def cb_schedules(seed, thorough):
@@ -400,8 +483,16 @@ def mutators(cb=False):
                         t.insert(k, t.pop(i))
                         return t
         return None
+    def used_lacks_peer(t):
+        # the real transport Round1 handed back the casts of n-1 participants
+        _, e = find(t, "Ret1")
+        if e and e.get("used"):
+            e["used"] = e["used"][:-1]
+            return t
+        return None
+
     if cb:
-        return [("re-delivery answered with an error", rd_refused), ("re-delivery before the first delivery", rd_before_delivery),
+        return [("Round1 returned without a participant's cast", used_lacks_peer), ("re-delivery answered with an error", rd_refused), ("re-delivery before the first delivery", rd_before_delivery),
                 ("group keys differ between nodes", gk_differs), ("public shares keyed from 0", pskeys_shifted)]
     return [("group keys differ between nodes", gk_differs), ("own secret share does not match its public share", own_mismatch),
             ("a t-subset's aggregate does not verify", subset_fails), ("a t-subset's public shares do not recover the key", recover_fails),
@@ -410,20 +501,67 @@ def mutators(cb=False):
             ("msgKey collision between validators", wrong_cast_key), ("Check event dropped", check_dropped)]
 
 
+def fault_mutators():
+    """controls on recorded ceremonies that ended with a node giving up after a failed send"""
+    def find(t, ev):
+        for i, e in enumerate(t):
+            if e.get("ev") == ev:
+                return i, e
+        return None, None
+
+    def abort_without_fault(t):
+        i, e = find(t, "Fault")
+        if e:
+            del t[i]
+            return t
+        return None
+
+    def abort_of_another_node(t):
+        # the node that gives up is not the one whose send failed
+        _, f = find(t, "Fault")
+        e = t[-2]
+        if f and e.get("ok") is False and e.get("ev") in ("Start", "Ret1"):
+            f["i"] = f["i"] % t[0]["n"] + 1
+            return t
+        return None
+
+    def fault_after_the_send(t):
+        # a round-1 send cannot fail after the node has left its round-1 send step
+        i, f = find(t, "Fault")
+        if f and f["r"] == 1:
+            for k in range(i + 1, len(t)):
+                if t[k].get("ev") == "Start" and t[k]["i"] == f["i"] and t[k].get("ok") is False:
+                    t[i], t[k] = t[k], t[i]
+                    return t
+        return None
+
+    def gave_up_unnoticed(t):
+        # the ceremony is reported aborted although the node went on
+        e = t[-2]
+        if e.get("ok") is False and e.get("ev") == "Start":
+            e["ok"] = True
+            return t
+        return None
+
+    return [("a node gives up without a failed send", abort_without_fault), ("the node that gives up is not the one whose send failed", abort_of_another_node),
+            ("send fails after the send step", fault_after_the_send), ("Abort although the node entered round 1", gave_up_unnoticed)]
+
+
 # ----------------------------------------------------------------------------------------------
 def run(tier, seed):
     o = vlib.Outcome(PID, tier, seed)
     thorough = tier == "thorough"
     # stage 0: design check + controls that MUST be violated
     mcs = (["FrostMC.cfg", "FrostMC_t3.cfg", "FrostMC_order.cfg", "FrostMC_redel.cfg", "FrostMC_n4.cfg", "FrostMC_n4e.cfg",
-            "FrostMC_n5.cfg"] if thorough else ["FrostMC_quick.cfg", "FrostMC_order_quick.cfg", "FrostMC_redel_quick.cfg"])
+            "FrostMC_n5.cfg", "FrostMC_fault.cfg"] if thorough else ["FrostMC_quick.cfg", "FrostMC_order_quick.cfg", "FrostMC_redel_quick.cfg",
+                                                                 "FrostMC_fault_quick.cfg"])
     for cfg in mcs:
         r = vlib.tlc(PID, FAMILY, "FrostMC", cfg, timeout=1500)
         vlib.require_mc_ok(r, cfg)
         o.add_mc(cfg[:-4], r)
     for cfg, inv, what in CONTROLS:
-        if cfg == "FrostMC_ctl_lastid_agree.cfg" and not thorough:
-            continue            # 48k states: thorough tier only (the two other "lastid" controls run in both)
+        if cfg in THOROUGH_ONLY_CONTROLS and not thorough:
+            continue            # the bigger end-to-end controls: thorough tier only (one control per variant runs in both)
         r = vlib.tlc(PID, FAMILY, "FrostMC", cfg, workers=4, timeout=600)
         if r.violation != inv:
             raise vlib.Infra("design-spec control failed: '%s' not caught by %s: %s" % (what, inv, r.summary()))
@@ -436,7 +574,10 @@ def run(tier, seed):
     p2p = p2p_schedules(seed, 40 if thorough else 6, 8 if thorough else 5)
     gcb, _ = vlib.gen_schedules(PID, FAMILY, "FrostGen", "FrostGen_cb.cfg", num=60 if thorough else 8, depth=250, seed=seed + 1000,
                                 limit=60 if thorough else 8)
-    cb = cb_schedules(seed, thorough) + from_tlc(gcb, seed, mode="cb")
+    gfl, _ = vlib.gen_schedules(PID, FAMILY, "FrostGen", "FrostGen_fault.cfg", num=40 if thorough else 4, depth=250, seed=seed + 2000,
+                                limit=40 if thorough else 4)
+    shapes = cb_schedules(seed, thorough)
+    cb = shapes[:2] + fault_schedules(seed, thorough, gfl) + shapes[2:] + from_tlc(gcb, seed, mode="cb")
     # stage 2+3
     kw = dict(chunk=40, exec_timeout=1500)
     vlib.conformance(o, FAMILY, "FrostTrace", "FrostTrace.cfg", PKG, gen, tag="tlcgen", **kw)
@@ -455,7 +596,10 @@ def run(tier, seed):
         trc = [t for t in vlib.split_traces(vlib.read_ndjson(vlib.workdir(PID) + "/trace_cb.ndjson"))
                if t and t[-1].get("ev") == "Check"]
         vlib.binding_selftest(o, FAMILY, "FrostTrace", "FrostTrace.cfg", trc, mutators(cb=True))
-        if len(o.selftests) < nst + len(mutators()) + len(mutators(cb=True)):
+        tra = [t for t in vlib.split_traces(vlib.read_ndjson(vlib.workdir(PID) + "/trace_cb.ndjson"))
+               if t and t[-1].get("ev") == "Abort"]
+        vlib.binding_selftest(o, FAMILY, "FrostTrace", "FrostTrace.cfg", tra, fault_mutators())
+        if len(o.selftests) < nst + len(mutators()) + len(mutators(cb=True)) + len(fault_mutators()):
             raise vlib.Infra("binding self-test: some negative control found no applicable trace")
     # the Pedersen path of the ceremony (dkg/pedersen): own spec family, same loop (specs/Pedersen, harness/pedersen)
     import grow_pedersen
